@@ -1039,7 +1039,24 @@ pub fn templated_prec_tree(rng: &mut Rng, atoms: &[Re]) -> Re {
     };
     let cls = |rng: &mut Rng| -> Re { rng.pick(atoms).clone() };
     for _ in 0..50 {
-        let t = match rng.below(9) {
+        let t = match rng.below(11) {
+            9 | 10 => {
+                // two different postfix operators stacked directly on one operand: `x+?`, `x?*`, ...
+                let x = small(rng);
+                let inner = post(rng, x);
+                let mut outer = post(rng, inner.clone());
+                for _ in 0..4 {
+                    if std::mem::discriminant(&outer) != std::mem::discriminant(&inner) {
+                        break;
+                    }
+                    outer = post(rng, inner.clone());
+                }
+                if rng.chance(1, 2) {
+                    Re::cat(outer, small(rng))
+                } else {
+                    outer
+                }
+            }
             0 => {
                 let (x, y) = (small(rng), small(rng));
                 let py = post(rng, y);
